@@ -9,23 +9,28 @@
    statements, every store, every decision sequence and every terminating, non-stuck run of the original:
    the functional form, started in any store that agrees with the original on what is live at entry, produces
    the same events with the same values read, consumes the same decisions, and ends in a store that agrees
-   on everything live at the exit (O).
+   on everything live at the exit (O); a run that ends in an exception ends in the same exception at the
+   same point, and the stores agree on what is live where it is caught (X; nothing when it leaves the
+   function).  Explicit `raise` and native try / except / else / finally statements around and inside the
+   rewritten statements are part of the language (handler dispatch by decision; a finally clause must complete
+   normally); a body function that is left by an exception loses its locals, which the conditions account for.
    The exporter reads L off the code control_flow.py really generates (CPython's symtable) and the live sets
    off the real analysis; the check evaluates chk_block on every exported program on every run (translation
    validation); together with C02 (the state variables are chosen so that the locals are never live) and
    C07 (the live sets are sound) this is the property for the statements control_flow.py rewrites.
    for loops carry the extra test `not flag` that break / return lowering attaches to them (tested before every
    item is pulled, as ag__.for_stmt does).
-   Not modelled here: try / with / raise around the rewritten statements, composite (attribute / subscript)
-   stores, loop else clauses, nested function definitions. *)
+   Not modelled here: with statements, exceptions raised implicitly by user statements, composite
+   (attribute / subscript) stores, loop else clauses, nested function definitions. *)
 From Coq Require Import List Arith Bool.
 Import ListNotations.
 Require Import MV.Fn.FnLang MV.Fn.FnProofs.
 
-Theorem functionalise_correct : forall F truthy n b O s s' d tr s1 d1,
-  chk_block b O = true -> agree (lin b O) s s' ->
-  run_block F truthy false n b s d = Some (tr, s1, d1) ->
-  exists s1', run_block F truthy true n b s' d = Some (tr, s1', d1) /\ agree O s1 s1'.
+Theorem functionalise_correct : forall F truthy n b O X s s' d tr o s1 d1,
+  chk_block b O X = true -> agree (lin b O) s s' ->
+  run_block F truthy false n b s d = Some (tr, o, s1, d1) ->
+  exists s1', run_block F truthy true n b s' d = Some (tr, o, s1', d1) /\
+              match o with FN => agree O s1 s1' | FR => agree X s1 s1' end.
 Proof. exact functionalise_correct_lemma. Qed.
 
 (* non-vacuity:  x = a0(a) ; if t1(x): (y = a2(x); while t3(y): (y = a4(y); z = a5(y)); x = a6(y)) ; return a7(x)
@@ -37,18 +42,31 @@ Definition ex_f : ablock :=
      (ACons [2] (AWhile 3 [2] [3] (ACons [2] (AAtom 4 [2] [2]) (ACons [2] (AAtom 5 [2] [3]) ANil)))
      (ACons [2] (AAtom 6 [2] [1]) ANil))) [] ANil)
  (ACons [1] (AAtom 7 [1] []) ANil)).
-Example ex_f_checks : chk_block ex_f [] = true.
+Example ex_f_checks : chk_block ex_f [] [] = true.
 Proof. vm_compute; reflexivity. Qed.
 Definition exF (l : label) (i : nat) (vs : list val) : val := 10 * l + i + fold_right plus 0 vs.
 Definition st0 : store := fun x => if Nat.eqb x 0 then Some 1 else None.
 Example ex_f_runs :
-  (match run_block exF (fun v => negb (Nat.eqb v 0)) false 30 ex_f st0 [1; 1; 0] with Some (tr, s, d) => Some (tr, s 1, s 2, d) | None => None end)
+  (match run_block exF (fun v => negb (Nat.eqb v 0)) false 30 ex_f st0 [1; 1; 0] with Some (tr, _, s, d) => Some (tr, s 1, s 2, d) | None => None end)
   = Some ([(0, [1]); (1, [1]); (2, [1]); (3, [21]); (4, [21]); (5, [61]); (3, [61]); (6, [61]); (7, [121])], Some 121, Some 61, [])
-  /\ (match run_block exF (fun v => negb (Nat.eqb v 0)) true 30 ex_f st0 [1; 1; 0] with Some (tr, s, d) => Some (tr, s 1, s 2, d) | None => None end)
+  /\ (match run_block exF (fun v => negb (Nat.eqb v 0)) true 30 ex_f st0 [1; 1; 0] with Some (tr, _, s, d) => Some (tr, s 1, s 2, d) | None => None end)
   = Some ([(0, [1]); (1, [1]); (2, [1]); (3, [21]); (4, [21]); (5, [61]); (3, [61]); (6, [61]); (7, [121])], Some 121, None, []).
 Proof. vm_compute; split; reflexivity. Qed.
 (* a local that is live is caught by the conditions: make y (2) local to if_body although it is read after the if *)
 Example ex_bad_rejected :
-  chk_block (ACons [0] (AIf 1 [0] [2] (ACons [0] (AAtom 2 [0] [2]) ANil) [] ANil) (ACons [2] (AAtom 3 [2] []) ANil)) [] = false.
+  chk_block (ACons [0] (AIf 1 [0] [2] (ACons [0] (AAtom 2 [0] [2]) ANil) [] ANil) (ACons [2] (AAtom 3 [2] []) ANil)) [] [] = false.
 Proof. vm_compute; reflexivity. Qed.
+(* non-vacuity with exceptions:  try: (if t1(a): (y = a2(a); raise r3(y)))  except: z = a4(y)  ;  return a5(a)
+   a=0 y=1 z=2: y is assigned in the body function and read by the handler, so it must NOT be a local of if_body *)
+Definition ex_t (L : list var) : ablock :=
+  ACons [0] (ATry (ACons [0] (AIf 1 [0] L (ACons [0] (AAtom 2 [0] [1]) (ACons [0; 1] (ARaise 3 [1]) ANil)) [] ANil) ANil)
+                  (AHCons (ACons [0; 1] (AAtom 4 [1] [2]) ANil) AHNil) ANil ANil)
+ (ACons [0] (AAtom 5 [0] []) ANil).
+Example ex_t_checks : chk_block (ex_t []) [] [] = true /\ chk_block (ex_t [1]) [] [] = false.
+Proof. vm_compute; split; reflexivity. Qed.
+Example ex_t_runs :
+  (match run_block exF (fun v => negb (Nat.eqb v 0)) true 30 (ex_t []) st0 [1; 0] with Some (tr, o, s, d) => Some (tr, o, s 2, d) | None => None end)
+  = Some ([(1, [1]); (2, [1]); (3, [21]); (4, [21]); (5, [1])], FN, Some 61, [])
+  /\ run_block exF (fun v => negb (Nat.eqb v 0)) true 30 (ex_t [1]) st0 [1; 0] = None.   (* with y local the handler reads an unbound y *)
+Proof. vm_compute; split; reflexivity. Qed.
 Print Assumptions functionalise_correct.
